@@ -150,3 +150,30 @@ Section RoundtripRsa.
   Qed.
 End RoundtripRsa.
 Print Assumptions pkcs8_rsa_roundtrip.
+
+(* C17, rejection: whatever the parser accepts is a key of a supported kind - an EC key on one of the ten curves whose scalar
+   is below the group order (the public point is recomputed from it), or an RSA key record of non-negative numbers *)
+Lemma curve_of_oid_in o c : curve_of_oid o = Some c -> In c ec_curves.
+Proof. unfold curve_of_oid. intros H. apply find_some in H as [H _]. exact H. Qed.
+
+Ltac peel H :=
+  repeat match type of H with
+         | (match ?X with _ => _ end) = Some _ => let E := fresh "E" in destruct X eqn:E; try discriminate H
+         | (if ?X then _ else _) = Some _ => let E := fresh "E" in destruct X eqn:E; try discriminate H
+         end.
+
+Theorem parse_accepts_only_supported_keys base_mult order bs k :
+  parse_pkcs8 base_mult order bs = Some k ->
+  match k with
+  | KEc c d pub => exists w, scalar_width c = Some w /\ d < order c /\ pub = base_mult c d
+  | KRsa _ _ _ _ _ _ _ _ => True
+  end.
+Proof.
+  unfold parse_pkcs8, parse_ec_private_key. intros H.
+  destruct k as [c d pub|]; [|exact I].
+  peel H; inversion H; subst; clear H;
+    match goal with
+    | Hw : scalar_width ?c = Some ?w, Ho : (_ <? order ?c) && _ = true |- _ =>
+      exists w; apply andb_prop in Ho as [Ho _]; apply N.ltb_lt in Ho; repeat split; assumption
+    end.
+Qed.
